@@ -259,6 +259,99 @@ claim(
     "DESIGN.md §5.5 C37",
 )
 
+claim(
+    "C42",
+    "PoolAllocatorT is modelled as a value (slabs from allocFunc numbered in order of first use, reuse list, free stack, "
+    "chunks handed out, allocFunc/deallocFunc counters) plus the spin lock of the thread-safe variant as an interleaving "
+    "protocol (Model/PoolAlloc.lean). Proved for every alloc/dealloc/clear/destroy sequence with >= 1 chunk per slab: every "
+    "free or handed-out chunk lies in an active slab with index < chunksPerAlloc and slab ids are exactly the allocFunc "
+    "calls (C42_chunks_valid), no chunk is free and handed out or handed out twice (C42_exclusive, C42_alloc_fresh), "
+    "clear() moves every slab to the reuse list and alloc consumes it before calling allocFunc again (C42_clear_reuses, "
+    "C42_alloc_prefers_reuse), destruction releases each slab exactly once (C42_ledger, C42_balance_any); the lock word "
+    "admits at most one thread in a critical section for any number of threads (C42_lock_mutex). Ties: differential on "
+    "NoLockPoolAllocator with logging alloc functions (ASan), and lock-word traces of PoolAllocator under the "
+    "deterministic scheduler replayed through the protocol model.",
+    "Trusted: Lean kernel; dsched; allocSize >= chunkSize and no chunk in use at clear() are class preconditions; the "
+    "critical-section bodies of the concurrent variant are covered by the harness oracle (no chunk twice, inside a slab), "
+    "not by the trace model.",
+    "Lean 4 proof (value invariant + lock mutual exclusion) + differential and trace correspondence",
+    "DESIGN.md §5.5 C42",
+)
+
+claim(
+    "C43",
+    "CpuSet (Linux backing), parseLinuxCpuList and buildGroupsFromCacheTopology are transcribed into Lean "
+    "(Model/CpuSet.lean, the parser mirroring strchr/strtol). Proved: add/addRange/remove/removeRange/contains/count are "
+    "the set operations on ids in [0, 1024) and ignore everything outside (C43_add … C43_out_of_range); for every string of "
+    "the cpu-list grammar the parser yields exactly the denoted in-range ids (C43_parse_grammar, no bound on list length "
+    "or numbers); the groups are a permutation of the CPUs of the L2 atoms, never split an atom, stay within "
+    "max(maxGroupSize, largest atom) and never contain two atoms with distinct known L3 groups (C43_groups_*; Array.qsort's "
+    "permutation property is proved from scratch). Tie: differential on boundary-biased id operations, every string over "
+    "{0,1,9,-,','} up to the length bound, random grammar strings and a malformed stream, and random synthetic topologies.",
+    "Trusted: Lean kernel; hand-written transcription checked on the explored inputs; an atom's L3 is that of its first "
+    "CPU, as in the code; CPU ids in synthetic topologies are non-negative.",
+    "Lean 4 proof (set algebra, parser correctness by structural induction, grouping fold invariant) + differential correspondence",
+    "DESIGN.md §5.6 C43",
+)
+
+claim(
+    "C15",
+    "The planning logic of for_each_n is modelled (Model/ForEach.lean) on top of the proved static chunking (C17). Proved "
+    "for every n >= 0, maxThreads (including 0 and 1), wait and pool size (including zero-thread pools): the chunks tile "
+    "[0, n), so the function is applied exactly once per element (C15_partition, C15_exactly_once); the chunk count is >= 1 "
+    "(no division by zero), <= max(maxThreads,1) and <= poolThreads+1 (C15_numThreads_pos, C15_tasks_bound); n = 0, "
+    "maxThreads = 0 or a nested call run serially (C15_serial). Tie: for_each_n on real pools (0..4 threads) over random "
+    "access / bidirectional / forward iterators, TaskSet / ConcurrentTaskSet, nesting; chunks recovered from the functor "
+    "copy that visited each element are compared with the plan; oracle: every element visited exactly once.",
+    "Trusted: Lean kernel; that all applications have finished when the call / wait() returns is the task-set barrier "
+    "(C02), exercised here only by the oracle; ASan/UBSan build.",
+    "Lean 4 proof (plan partition via C17) + differential correspondence on real pools",
+    "DESIGN.md §5.2 C15",
+)
+
+claim(
+    "C12",
+    "The planning logic of parallel_for (computeGranularity, adjustChunkSizing, calcChunkSize, the static mapper, dynamic "
+    "chunks, stripe boundaries and stripe chunks) is modelled as a function from the configuration to the list of body "
+    "invocations (Model/ParFor.lean). C12_partition proves, for every configuration with start < stop (all modes: serial, "
+    "static with tail, static no-wait with folded tail, dynamic, stripes; any maxThreads, minItemsPerChunk, granularity, "
+    "pool size, nesting), that the invocations tile [start, stop): every index exactly once, none outside "
+    "(C12_exactly_once); empty ranges give no invocation (C12_empty). Tie: parallel_for on real pools over all eight "
+    "integer types (edge-biased and huge ranges, the 8-bit (start,end) grid), sorted invocation lists compared exactly with "
+    "the model, plus a partition oracle.",
+    "Trusted: Lean kernel; index arithmetic is unbounded Int in the model (end - start < 2^63); which thread claims a "
+    "dynamic/stripe chunk is not modelled (the atomic cursors only decide who runs a chunk); completion at return / wait() "
+    "is C02's barrier. Known finding (recorded, not repaired): adaptive wait=true 64-bit ranges ending at the type maximum "
+    "overflow the stripe cursor.",
+    "Lean 4 proof (case analysis of the plan, tilings) + differential correspondence on real pools",
+    "DESIGN.md §5.2 C12",
+)
+
+claim(
+    "C13",
+    "On the same plan model: with granularity g > 1 and no explicit chunk size, every invocation except the last one in "
+    "range order has a size that is a multiple of g, and the last one ends at the range end (C13_granularity, "
+    "C13_last_ends_at_stop), for every start offset, size, chunking mode, wait mode and pool size. Tie and oracle as C12, "
+    "with the granularity oracle evaluated on the real invocation lists.",
+    "Trusted: as C12.",
+    "Lean 4 proof (plan case analysis, divisibility) + differential correspondence on real pools",
+    "DESIGN.md §5.2 C13",
+)
+
+claim(
+    "C48",
+    "On the parallel_for plan model (Model/ParFor.lean): the number of loop tasks (scheduled tasks plus the caller when it "
+    "participates; each runs one body invocation at a time) is at most max(maxThreads, 1) and at most poolThreads + 1, no "
+    "tail is run concurrently with scheduled chunks, and maxThreads in {0, 1} gives the serial plan (C48_tasks_bound, "
+    "C48_tasks_pool, C48_tail_not_concurrent, C48_serial), for every chunking mode, wait mode, granularity and pool size; "
+    "for for_each the same bound is C15_tasks_bound. Tie as C12; oracle: the maximum number of simultaneously active body "
+    "invocations observed on real pools (bodies spin 30 us) never exceeds max(maxThreads, 1).",
+    "Trusted: as C12; that each task runs its invocations sequentially is structural (one functor per task). The original "
+    "overwrite of the budget for small explicitly chunked ranges is kept as planOld with proved counterexamples.",
+    "Lean 4 proof (plan case analysis) + differential correspondence and concurrency oracle on real pools",
+    "DESIGN.md §5.2 C48",
+)
+
 ALL = ["C%02d" % i for i in range(1, 49)]
 for _p in ALL:
     if _p not in CLAIMED:
